@@ -58,5 +58,19 @@ func TestProbeF28RelativeOrDanglingLinkDoesNotStopTheScan(t *testing.T) {
 		if f.GetName() == "a/rel-link.dat" && f.GetSize() != 2 {
 			t.Errorf("a/rel-link.dat: size %d, want the target's 2", f.GetSize())
 		}
+		if f.GetName() == "a/rel-link.dat" {
+			// ... and what is hashed and streamed is the target, found from the link's directory
+			rd, err := dir.Open(f)
+			if err != nil {
+				t.Errorf("a/rel-link.dat cannot be opened for hashing/sending: %v", err)
+				continue
+			}
+			buf := make([]byte, 8)
+			n, _ := rd.Read(buf)
+			rd.Close()
+			if string(buf[:n]) != "22" {
+				t.Errorf("a/rel-link.dat: opened content %q, want the target's \"22\"", buf[:n])
+			}
+		}
 	}
 }
